@@ -84,7 +84,7 @@ CHECKS = {
             "Assumed: storage.MintDB contracts (SQL text: bounded conformance when present); slices.IndexFunc modelled natively.",
             "DESIGN.md §8 C15"),
     "C16": (True,
-            "TotalBalance = issued total - redeemed total (map folds proved against an order-independent sum); RequestMintQuote/RequestMeltQuote refuse amounts above the configured maxima and a balance above the maximum balance, as inequalities in mathematical integers; RetrieveMintInfo disables minting iff balance >= max balance.",
+            "TotalBalance = issued total - redeemed total (map folds proved against an order-independent sum); RequestMintQuote/RequestMeltQuote refuse amounts above the configured maxima and a balance above the maximum balance, as inequalities in mathematical integers; RetrieveMintInfo disables minting iff balance >= max balance. TOTALS FOLLOW EVERY OPERATION (round 4): a successful Swap adds exactly the sum of its signatures to the issued total and exactly the sum of its inputs to the redeemed total; a successful MintTokens adds exactly its signatures to the issued total and leaves the redeemed total; MeltTokens never issues and adds its inputs to the redeemed total exactly when it ends PAID (settleProofs); a refusal without storage fault leaves both totals; IssuedEcash / RedeemedEcash hand out the store's per-keyset maps unchanged (their sums are those totals).",
             "A-INV16: totals below 2^63 and redeemed <= issued (sqlite cannot store larger amounts; redeemed ecash was issued). The two SQL views are assumed (store contract).",
             "DESIGN.md §8 C16"),
 }
